@@ -432,7 +432,28 @@ Proof.
 Qed.
 
 (* ------------------------------------------------------------------------------------------------------------------ *)
-(* the relevance test, absolute spelling: an inner spec found at q stays relevant exactly in q and below *)
+(* the relevance test (repaired: absolute on both sides): an inner spec found at q stays relevant exactly in q and below, for every
+   spelling p whose dirnames have the absolute paths "/b1/../bn/T" *)
+
+Lemma proper_prefixb_app a q cs : proper_prefixb (a ++ q) (a ++ cs) = proper_prefixb q cs.
+Proof. induction a as [|x a IH]; [reflexivity|]. cbn [app proper_prefixb]. rewrite text_eqb_refl. exact IH. Qed.
+
+Lemma keep_generic cwd p b : b <> [] -> names_ok b ->
+  (forall T, names_ok T -> abspath cwd (dn p T) = slashcat (b ++ T)) ->
+  forall q cs f s, names_ok q -> names_ok cs -> keep_inner cwd (dn p cs) (dn p q, f, s) = prefixb q cs.
+Proof.
+  intros Hb Hbok HA q cs f s Hq Hcs. unfold keep_inner, sr_dir. cbn [fst].
+  rewrite (HA q Hq), (HA cs Hcs).
+  assert (Nq : noslashes (b ++ q)) by (apply names_noslashes, names_ok_app; split; assumption).
+  assert (Ncs : noslashes (b ++ cs)) by (apply names_noslashes, names_ok_app; split; assumption).
+  rewrite (startswith_slashcat_prefix (b ++ q) (b ++ cs) Nq Ncs). rewrite proper_prefixb_app.
+  rewrite prefixb_split. f_equal.
+  destruct (parts_eqb q cs) eqn:E.
+  - apply parts_eqb_eq in E. rewrite E. apply text_eqb_refl.
+  - apply text_eqb_neq. intros E'. apply (f_equal (abspath cwd)) in E'. rewrite (HA q Hq), (HA cs Hcs) in E'.
+    apply slashcat_inj in E'; [|assumption|assumption]. apply app_inv_head in E'. subst.
+    rewrite (proj2 (parts_eqb_eq q q) eq_refl) in E. discriminate.
+Qed.
 
 Section KeepAbs.
   Variable cwd : text.
@@ -445,38 +466,7 @@ Section KeepAbs.
   Lemma keep_abs q cs f s : names_ok q -> names_ok cs ->
     keep_inner cwd (dn p cs) (dn p q, f, s) = prefixb q cs.
   Proof.
-    intros Hq Hcs. unfold keep_inner, sr_dir. cbn [fst].
-    rewrite (abspath_dn cwd ps p ps_ne ps_ok p_abs q Hq).
-    assert (Nq := names_noslashes _ Hq). assert (Ncs := names_noslashes _ Hcs). assert (Nps := names_noslashes _ ps_ok).
-    destruct cs as [|c cs].
-    - (* at the walked path itself *)
-      unfold dn at 1 2. cbn [fold_left]. destruct q as [|d q].
-      + cbn [fold_left]. rewrite text_eqb_refl. reflexivity.
-      + cbn [prefixb]. fold (dn p (d :: q)). rewrite (dn_cons ps p ps_ne ps_ok p_abs d q Hq).
-        inversion Hq as [|? ? Hd _]; subst. apply name_ok_parts in Hd. destruct Hd as [Hdne _].
-        rewrite slashcat_app, slashcat_cons.
-        assert (E1 : text_eqb p (slashcat ps ++ slash :: d ++ slashcat q) = false).
-        { apply text_eqb_neq. intros E. destruct p_abs as [Hp | Hp]; rewrite Hp in E.
-          - rewrite <- (app_nil_r (slashcat ps)) in E at 1. apply app_inv_head in E. discriminate.
-          - apply app_inv_head in E. injection E as E. destruct d; [contradiction|discriminate]. }
-        rewrite E1. cbn [orb].
-        destruct p_abs as [Hp | Hp]; rewrite Hp; unfold dn; cbn [fold_left].
-        * rewrite <- (app_nil_r (slashcat ps)) at 2. rewrite <- app_assoc. rewrite startswith_app_both. reflexivity.
-        * rewrite <- app_assoc. rewrite startswith_app_both. cbn [app startswith]. rewrite N.eqb_refl. cbn [andb].
-          destruct d; [contradiction|reflexivity].
-    - rewrite (dn_cons ps p ps_ne ps_ok p_abs c cs Hcs). destruct q as [|d q].
-      + (* the spec of the walked path itself *)
-        cbn [prefixb]. unfold dn. cbn [fold_left]. rewrite app_nil_r.
-        rewrite slashcat_app. rewrite startswith_app_both.
-        rewrite slashcat_cons. cbn [startswith]. rewrite N.eqb_refl. cbn [andb]. apply orb_true_r.
-      + rewrite (dn_cons ps p ps_ne ps_ok p_abs d q Hq).
-        rewrite (slashcat_app ps (d :: q)), (slashcat_app ps (c :: cs)). rewrite <- app_assoc. rewrite startswith_app_both.
-        rewrite (startswith_slashcat_prefix (d :: q) (c :: cs) Nq Ncs).
-        rewrite prefixb_split. f_equal.
-        destruct (parts_eqb (d :: q) (c :: cs)) eqn:E.
-        * apply parts_eqb_eq in E. rewrite E. apply text_eqb_refl.
-        * apply text_eqb_neq. intros E'. apply app_inv_head in E'. apply slashcat_inj in E'; [|assumption|assumption].
-          rewrite E' in E. assert (X : parts_eqb (d :: q) (d :: q) = true) by (apply parts_eqb_eq; reflexivity). congruence.
+    apply (keep_generic cwd p ps ps_ne ps_ok). intros T HT. apply (abspath_dn cwd ps p ps_ne ps_ok p_abs T HT).
   Qed.
 End KeepAbs.
 
@@ -1344,13 +1334,18 @@ Section RelSpelling.
         symmetry. exact Heq.
   Qed.
 
-  (* K for relative spellings: an inner spec is kept only in the very directory where it was found *)
-  Lemma keep_rel q cs f s : names_ok q -> names_ok cs -> keep_inner cwd (dn p cs) (dn p q, f, s) = parts_eqb q cs.
+  (* K for relative spellings (repaired code): as for absolute spellings, provided the path is not the file-system root *)
+  Lemma keep_rel q cs f s : base <> [] -> names_ok q -> names_ok cs -> keep_inner cwd (dn p cs) (dn p q, f, s) = prefixb q cs.
   Proof.
-    intros Hq Hcs. unfold keep_inner, sr_dir. cbn [fst]. rewrite (dn_rel_inj q cs Hq Hcs).
-    rewrite (abspath_dn_rel q Hq). destruct (dn_head cs Hcs) as [y Ey]. rewrite Ey.
-    destruct p as [|c0 p']; [contradiction|]. cbn [isabs] in p_rel. cbn [app startswith]. rewrite N.eqb_sym, p_rel. cbn [andb]. apply orb_false_r.
+    intros Hb. apply (keep_generic cwd p base Hb base_ok). intros T HT. rewrite (abspath_dn_rel T HT).
+    apply intercalate_slashcat. apply app_ne_l. exact Hb.
   Qed.
+
+  Lemma base_is_parts : parts_of cwd p = base.
+  Proof. rewrite <- (app_nil_r base). apply (parts_of_dn_rel [] (Forall_nil _)). Qed.
+
+  Lemma abspath_dn_rel' T : base <> [] -> names_ok T -> abspath cwd (dn p T) = slashcat (base ++ T).
+  Proof. intros Hb HT. rewrite (abspath_dn_rel T HT). apply intercalate_slashcat. apply app_ne_l. exact Hb. Qed.
 End RelSpelling.
 
 (* ------------------------------------------------------------------------------------------------------------------ *)
